@@ -320,11 +320,22 @@ EdgeWhy(ev, st) ==
              ELSE IF ~LocalDesignW(st, le) THEN "design"
              ELSE "ok"
 
+\* a batch of edge observations around a point where the first vertex changes
+\* (the executor finds the point by binary search on edge(); every item is
+\* judged as an `edge` event)
+BoundaryWhy(ev, st) ==
+    IF ~SigOK(ev.sig, st.sigw) THEN "script-signature"
+    ELSE IF st.phase # "ready" THEN (IF ev.out \in {"ret", "panic"} THEN "ok" ELSE "outcome")
+    ELSE IF ev.out # "ret" THEN "outcome"
+    ELSE LET bad == {k \in 1 .. Len(ev.items) : EdgeWhy(ev.items[k], st) # "ok"}
+         IN  IF bad = {} THEN "ok" ELSE EdgeWhy(ev.items[CHOOSE k \in bad : \A j \in bad : k <= j], st)
+
 Eff(ev, st) ==
     CASE ev.op = "shards"   -> ShardsEff(ev, st)
       [] ev.op = "graphs"   -> GraphsEff(ev, st)
       [] ev.op \in {"reload", "state"} -> SameEff(ev, st)
       [] ev.op = "mem_size" -> MemEff(ev, st)
       [] ev.op = "edge"     -> [why |-> EdgeWhy(ev, st), st |-> st]
+      [] ev.op = "boundary" -> [why |-> BoundaryWhy(ev, st), st |-> st]
       [] OTHER -> [why |-> "unknown-op", st |-> st]
 =============================================================================
